@@ -13,6 +13,7 @@ import (
 	"net/url"
 	"sort"
 	"strings"
+	"sync/atomic"
 
 	"github.com/basekick-labs/arc/internal/api"
 	"github.com/basekick-labs/arc/internal/config"
@@ -59,9 +60,41 @@ type outcome struct {
 // do sends one multipart upload to /api/v1/import/<kind> on a FRESH ArrowBuffer + FRESH backend, then
 // FlushAll + Close, and returns the response and everything the backend holds.
 func (s *sut) do(kind string, q url.Values, fileName string, file []byte) outcome {
+	return s.doX(kind, q, fileName, file, doOpt{})
+}
+
+// doOpt: the buffer context and storage faults of the fault family (fault.go). The zero value is the
+// plain case: one shard, nothing else buffered, storage never fails.
+type doOpt struct {
+	Shards  int                       // ArrowBuffer shard count (0 = 1)
+	Headers map[string]string         // extra request headers
+	Pre     func(*ingest.ArrowBuffer) // runs before the request (other measurements' pending rows)
+	// Fail is consulted for every storage Write issued WHILE THE HANDLER RUNS (path, 1-based ordinal
+	// of the write); a non-nil error is returned to Arc and nothing is stored. After the response the
+	// hook is removed, so the harness' own FlushAll + Close never fail.
+	Fail func(path string, n int) error
+}
+
+func (s *sut) doX(kind string, q url.Values, fileName string, file []byte, opt doOpt) outcome {
 	mem := hx.NewMemBackend()
-	buf := ingest.NewArrowBuffer(ingestCfg(), mem, zerolog.Nop())
+	cfg := ingestCfg()
+	if opt.Shards > 0 {
+		cfg.ShardCount = opt.Shards
+	}
+	buf := ingest.NewArrowBuffer(cfg, mem, zerolog.Nop())
 	s.h.SetArrowBuffer(buf)
+	if opt.Pre != nil {
+		opt.Pre(buf)
+	}
+	var inHandler atomic.Bool
+	if opt.Fail != nil {
+		mem.FailWrite = func(path string, n int) error {
+			if !inHandler.Load() {
+				return nil
+			}
+			return opt.Fail(path, n)
+		}
+	}
 
 	var body bytes.Buffer
 	mw := multipart.NewWriter(&body)
@@ -73,11 +106,16 @@ func (s *sut) do(kind string, q url.Values, fileName string, file []byte) outcom
 	req.Header.SetMethod("POST")
 	req.SetRequestURI("/api/v1/import/" + kind + "?" + q.Encode())
 	req.Header.Set("x-arc-database", dbName)
+	for k, v := range opt.Headers {
+		req.Header.Set(k, v)
+	}
 	req.Header.SetContentType(mw.FormDataContentType())
 	req.SetBody(body.Bytes())
 	var fctx fasthttp.RequestCtx
 	fctx.Init(&req, nil, nil)
+	inHandler.Store(true)
 	s.handler(&fctx)
+	inHandler.Store(false)
 
 	o := outcome{Status: fctx.Response.StatusCode(), Body: string(fctx.Response.Body()), RowsImported: -1}
 	buf.FlushAll(context.Background())
@@ -107,10 +145,11 @@ type expectation struct {
 }
 
 type verdict struct {
-	Kind   string // "" = held
-	Detail string // stable description of the first disagreement (used for bucketing)
-	Accept bool   // 2xx
-	Types  string // stored column types (vacuity statistics)
+	Kind   string    // "" = held
+	Detail string    // stable description of the first disagreement (used for bucketing)
+	Accept bool      // 2xx
+	Types  string    // stored column types (vacuity statistics)
+	Fault  *faultObs // set by the fault x context family only (statistics)
 }
 
 func (o outcome) ok2xx() bool { return o.Status >= 200 && o.Status < 300 }
